@@ -9,18 +9,18 @@ namespace GqlVerif
 inductive DirVal where
   | str (s : String)
   | other
-  deriving Repr, BEq, DecidableEq, Inhabited
+  deriving Repr, DecidableEq, Inhabited
 
 structure Directive where
   name : String
   args : List (String × DirVal)
-  deriving Repr, BEq, DecidableEq, Inhabited
+  deriving Repr, DecidableEq, Inhabited
 
 structure SdlField where
   name : String
   ty : GTy
   directives : List Directive
-  deriving Repr, BEq, DecidableEq, Inhabited
+  deriving Repr, DecidableEq, Inhabited
 
 inductive SdlDef where
   | schemaDef (q m s : Option String)
@@ -32,7 +32,7 @@ inductive SdlDef where
   | extObject (name : String) (implements : List String) (fields : List SdlField)
   | input (name : String) (directives : List String) (fields : List (String × GTy))
   | other
-  deriving Repr, BEq, DecidableEq, Inhabited
+  deriving Repr, DecidableEq, Inhabited
 
 abbrev SdlDoc := List SdlDef
 
